@@ -137,6 +137,9 @@ pub fn opts_for(prop: &str) -> GenOpts {
     let mut o = GenOpts::base();
     match prop {
         "C01" => {
+            // operation classes that do not concern this property directly, at a low weight:
+            // what they do to the shared state must not disturb what the property states
+            o.w_query = 4;
             o.w_composite = 12;
             o.stale_pct = 25;
             // sources that would yield again after their first None: the source sequence ends
@@ -144,6 +147,11 @@ pub fn opts_for(prop: &str) -> GenOpts {
             o.nonfused_pct = 15;
         }
         "C02" => {
+            // operation classes that do not concern this property directly, at a low weight:
+            // what they do to the shared state must not disturb what the property states
+            o.w_query = 4;
+            o.w_skip = 3;
+            o.nonfused_pct = 10;
             // "take the rest" chunk sizes at the edge of usize (known-size kinds only)
             o.huge_pct = 4;
             o.w_composite = 12;
@@ -156,6 +164,10 @@ pub fn opts_for(prop: &str) -> GenOpts {
             o.wrapper_nth_pct = 35;
         }
         "C03" => {
+            // operation classes that do not concern this property directly, at a low weight:
+            // what they do to the shared state must not disturb what the property states
+            o.w_query = 4;
+            o.nonfused_pct = 10;
             // "take the rest" chunk sizes at the edge of usize (known-size kinds only)
             o.huge_pct = 4;
             o.w_single = 10;
@@ -169,6 +181,9 @@ pub fn opts_for(prop: &str) -> GenOpts {
             o.w_skip = 4;
         }
         "C04" => {
+            // operation classes that do not concern this property directly, at a low weight:
+            // what they do to the shared state must not disturb what the property states
+            o.zero_pct = 3;
             o.w_query = 12;
             o.w_stop = 3;
             // the cursor model includes skip_to_end: the order clauses of C04 hold for histories
@@ -185,6 +200,9 @@ pub fn opts_for(prop: &str) -> GenOpts {
             o.huge_pct = 6;
         }
         "C05" => {
+            // operation classes that do not concern this property directly, at a low weight:
+            // what they do to the shared state must not disturb what the property states
+            o.w_composite = 6;
             o.nonfused_pct = 40;
             o.short_hint_pct = 25;
             o.w_query = 10;
@@ -194,6 +212,10 @@ pub fn opts_for(prop: &str) -> GenOpts {
             o.w_skip = 5;
         }
         "C06" => {
+            // operation classes that do not concern this property directly, at a low weight:
+            // what they do to the shared state must not disturb what the property states
+            o.w_composite = 6;
+            o.zero_pct = 3;
             // "take the rest" chunk sizes at the edge of usize (known-size kinds only)
             o.huge_pct = 4;
             o.w_skip = 14;
@@ -202,6 +224,9 @@ pub fn opts_for(prop: &str) -> GenOpts {
             o.max_ops = 6;
         }
         "C07" => {
+            // operation classes that do not concern this property directly, at a low weight:
+            // what they do to the shared state must not disturb what the property states
+            o.w_composite = 6;
             o.kinds = ITER_KINDS.to_vec();
             o.w_skip = 5;
             // length queries must not touch the wrapped iterator while somebody else may be
@@ -212,6 +237,9 @@ pub fn opts_for(prop: &str) -> GenOpts {
             o.stale_pct = 25;
         }
         "C08" => {
+            // operation classes that do not concern this property directly, at a low weight:
+            // what they do to the shared state must not disturb what the property states
+            o.w_query = 4;
             // "take the rest" chunk sizes at the edge of usize (known-size kinds only)
             o.huge_pct = 4;
             o.kinds = CONSUMING.to_vec();
@@ -241,6 +269,10 @@ pub fn opts_for(prop: &str) -> GenOpts {
             o.pre_pct = 20;
         }
         "C10" => {
+            // operation classes that do not concern this property directly, at a low weight:
+            // what they do to the shared state must not disturb what the property states
+            o.w_composite = 6;
+            o.w_query = 4;
             o.w_skip = 6;
             o.w_stop = 10;
             o.into_seq_pct = 100;
@@ -250,6 +282,9 @@ pub fn opts_for(prop: &str) -> GenOpts {
             o.drain = false;
         }
         "C11" => {
+            // operation classes that do not concern this property directly, at a low weight:
+            // what they do to the shared state must not disturb what the property states
+            o.w_composite = 5;
             // "take the rest" chunk sizes at the edge of usize (known-size kinds only)
             o.huge_pct = 4;
             o.w_query = 40;
@@ -266,6 +301,9 @@ pub fn opts_for(prop: &str) -> GenOpts {
             o.kinds = kinds;
         }
         "C12" => {
+            // operation classes that do not concern this property directly, at a low weight:
+            // what they do to the shared state must not disturb what the property states
+            o.w_query = 4;
             // "take the rest" chunk sizes at the edge of usize (known-size kinds only)
             o.huge_pct = 4;
             o.w_composite = 60;
@@ -321,6 +359,9 @@ pub fn opts_for(prop: &str) -> GenOpts {
             o.multi_iter = true;
         }
         "C15" => {
+            // operation classes that do not concern this property directly, at a low weight:
+            // what they do to the shared state must not disturb what the property states
+            o.w_query = 4;
             // "take the rest" chunk sizes at the edge of usize (known-size kinds only)
             o.huge_pct = 4;
             o.kinds = CONSUMING.to_vec();
@@ -339,6 +380,10 @@ pub fn opts_for(prop: &str) -> GenOpts {
             o.closure_panic_pct = 10;
         }
         "C17" => {
+            // operation classes that do not concern this property directly, at a low weight:
+            // what they do to the shared state must not disturb what the property states
+            o.huge_pct = 4;
+            o.zero_pct = 3;
             o.w_skip = 6;
             o.w_composite = 8;
             o.w_query = 6;
@@ -348,6 +393,10 @@ pub fn opts_for(prop: &str) -> GenOpts {
             o.heap_pct = 30;
         }
         "C18" => {
+            // operation classes that do not concern this property directly, at a low weight:
+            // what they do to the shared state must not disturb what the property states
+            o.w_query = 4;
+            o.huge_pct = 4;
             o.panic_sites = vec![PanicSite::WrappedNext, PanicSite::Clone, PanicSite::Closure];
             // a panic while another thread has called skip_to_end (seeded change C18-r7)
             o.w_skip = 5;
